@@ -341,3 +341,21 @@ impl Drop for ReadCursor {
         }
     }
 }
+
+#[cfg(multiqueue2_verif)]
+impl ReadCursor {
+    /// (address of the group pointer, current group, (cursor address, raw cursor) per stream, last_pos)
+    pub unsafe fn verif_state(&self) -> (usize, usize, Vec<(usize, usize)>, usize) {
+        let group = self.readers.raw();
+        let mut streams = Vec::new();
+        for reader_ptr in &(*group).readers {
+            streams.push((*reader_ptr as usize, (**reader_ptr).pos_data.verif_raw()));
+        }
+        (
+            &self.readers as *const AtomicPtr<ReaderGroup> as usize,
+            group as usize,
+            streams,
+            self.last_pos.get(),
+        )
+    }
+}
